@@ -628,7 +628,7 @@ impl Prop for P {
             },
             Tier::Thorough => Plan {
                 workers: 8,
-                cases_per_worker: 20000,
+                cases_per_worker: 50000,
                 timeout_s: 14400,
                 max_shrink_iters: 100,
             },
